@@ -24,6 +24,8 @@
 #include <tulz/threading/rwp/ReadLock.h>
 #include <tulz/threading/rwp/WriteLock.h>
 
+#include "../painted.h"
+
 using tulz::rwp::Resource;
 using verif::ev;
 
@@ -124,8 +126,12 @@ static void section(Resource &res, int t, char op, bool barrier) {
     if (op == 'r' || op == 'w') ev("uret " + ts);
 }
 
+static unsigned char g_paint = 0;
+
 static void runOne(const std::vector<std::string> &progsIn) {
-    Resource res, other;
+    // both Resources live in painted storage (harness/painted.h): a member left uninitialised by a constructor has a known value
+    verif::Painted<Resource> resBox(g_paint), otherBox(g_paint);
+    Resource &res = *resBox, &other = *otherBox;
     g_other = &other;
     {
         // stable ids: the Resource under test is m0 / c1, the unrelated one m2 / c3 (the trace analysis looks at m0 / c1 only)
@@ -182,6 +188,8 @@ int main() {
         if (!rest.empty() && rest.back() == "pts") { pts = true; rest.pop_back(); }
         if (mode == "seed") seed = std::stoull(rest.at(0));
         else for (auto &x : rest) script.push_back(std::stoi(x));
+        // the paint depends on the programs only, so that the explicit-schedule replay of an execution paints the same bytes
+        g_paint = verif::paintFor(progsS);
         verif::Sched::I().begin(mode == "seed", seed, script, pts);
         runOne(progs);
         verif::Sched::I().end();
